@@ -6,6 +6,7 @@ import Nlmodel.Driver.ObjOps
 import Nlmodel.Driver.TreeGen
 import Nlmodel.Model.Session
 import Nlmodel.Driver.GcOps
+import Nlmodel.Driver.Utf8Ops
 import Nlmodel.Model.Verifier
 import Nlmodel.Proofs.Lemmas.SimFnValidate
 import Nlmodel.Proofs.Lemmas.SimHValidate
@@ -157,6 +158,7 @@ def handle (cc : CharClass) (line : String) : String :=
   | "runbytes" :: b :: code :: "|" :: consts => runBytesReal b code consts
   | ["tables"] => modelTables
   | "obj" :: rest => handleObj rest
+  | "utf8" :: rest => handleUtf8 rest
   | ["evalx", b, h] =>
     match unhexText h with
     | some t => evalTextX cc b.toNat! t
